@@ -1,0 +1,43 @@
+//go:build verif
+
+// Contracts for the govc verifier (/verif). This file contains comments only; it is compiled
+// only under the build tag "verif" and contributes no declarations.
+package eth_tx
+
+// Wrapped Ethereum transactions (C07): the sender of a replay-protected transaction is only recovered when
+// the chain id encoded in V is the signer's chain id - the signing hash covers the SIGNER's chain id, not the
+// declared one, so without this comparison a transaction re-labelled with another chain id would still
+// recover to its sender. derivedChain / protectedV: what Transaction.ChainId / Protected compute from V
+// (abstract); key recovery, the signing hash and the pre-EIP-155 signer are trusted.
+//@ spec abstract fn derivedChain(v Int) Int
+//@ spec abstract fn protectedV(v Int) bool
+
+//@ func Transaction.ChainId
+//@   option trusted
+//@   requires tx != nil
+//@   ensures result != nil && fresh(result) && (tx.data.V != nil ==> big(result) == derivedChain(big(tx.data.V)))
+//@   modifies nothing
+
+//@ func Transaction.Protected
+//@   option trusted
+//@   requires tx != nil
+//@   ensures tx.data.V != nil ==> result == protectedV(big(tx.data.V))
+//@   modifies nothing
+
+//@ func recoverPlain
+//@   option trusted
+//@   modifies nothing
+
+//@ func HomesteadSigner.Sender
+//@   option trusted
+//@   modifies nothing
+
+//@ func EIP155Signer.Hash
+//@   option trusted
+//@   modifies nothing
+
+//@ func EIP155Signer.Sender
+//@   property C07
+//@   requires tx != nil && tx.data.V != nil && s.chainId != nil && s.chainIdMul != nil && big8 != nil
+//@   ensures [chain] result1 == nil && protectedV(big(tx.data.V)) ==> derivedChain(big(tx.data.V)) == big(s.chainId)
+//@   modifies nothing
